@@ -48,7 +48,7 @@ LEVEL_TEXT = (
 
 def budget(tier):
     if tier == "quick":
-        return {"examples": 96, "shards": 16, "time_s": 75}
+        return {"examples": 224, "shards": 16, "time_s": 75}
     return {"examples": 640, "shards": 16, "time_s": 1500, "hard_s": 5400}
 
 
@@ -112,7 +112,7 @@ def _run_spec(draw, observed=False):
         n = draw(st.integers(6, 60))
     return {"seed": draw(st.integers(0, 2**31 - 1)), "n": n, "chunk": chunk,
             "prefix": draw(st.sampled_from([None, None, "a", "b", "s[1]"])), "fmt": draw(st.sampled_from(["tsv", "tsv", "parquet"])),
-            "two_datasets": draw(st.sampled_from([False, False, True])),
+            "two_datasets": draw(st.sampled_from([False, True])),
             "dedup": draw(st.booleans()), "rollup": draw(st.sampled_from([True, True, False])),
             "proteins": draw(st.sampled_from([False, False, True]))}
 
